@@ -372,6 +372,16 @@ def rule_cs_width(cx, rep, port):
                         rep.holds(key, r, 'advances by the delimiter length')
                     else:
                         rep.undecided(key, r, 'position arithmetic not recognised')
+        # any other arithmetic on a position at which the delimiter was found
+        dpos = set()
+        for a in walk_no_nested(fd):
+            if isinstance(a, ast.Assign) and isinstance(a.targets[0], ast.Name) and isinstance(a.value, ast.Call) and isinstance(a.value.func, ast.Attribute) and a.value.func.attr in ('find', 'rfind', 'index', 'rindex', 'indexOf', 'lastIndexOf') and a.value.args and is_name(a.value.args[0], dlm):
+                dpos.add(a.targets[0].id)
+        for e in walk_no_nested(fd):
+            if isinstance(e, ast.BinOp) and isinstance(e.op, ast.Add) and isinstance(getattr(e, 'parent', None), (ast.Assign, ast.AugAssign, ast.Call, ast.Subscript, ast.Slice)):
+                if any(isinstance(x, ast.Name) and x.id in dpos for x in (e.left, e.right)) and any(isinstance(x, ast.Constant) and x.value == 1 for x in (e.left, e.right)):
+                    n += 1
+                    rep.violated('{}: `{}`'.format(fname, node_text(e)), e, 'a position at which the delimiter was found is advanced by one character instead of the delimiter length: with a multi-character delimiter the rest of the delimiter becomes part of the next field')
     rep.require_count('delimiter-width sites', n, 4, (p.files['csv_utils'], 0))
 
 
